@@ -1,7 +1,7 @@
 """C14 — signals reach every connected handler exactly once per emit.
 
 Five sub-checks share one interpreter (``run_machine``) that drives the real signal machinery and a
-list model of the connections side by side:
+list model of the connections side by side (``body`` / ``bodym``, below, have a small interpreter of their own):
 
 * ``hist``    exhaustive enumeration of bounded histories of connect / disconnect(args) /
               disconnect_by_key / emit over 2 senders x 2 signal names x 3 handlers, each handler's
@@ -40,6 +40,19 @@ list model of the connections side by side:
               sender drop), ``reg`` (register the sender's class again), ``p`` (the Button emits by itself:
               keypress "enter"), ``dc`` (disconnect the constructor's connection by its arguments).
 
+* ``body``    the connections urwid's widgets make for themselves (anchor urwid/widget/listbox.py): a ListBox is a
+              handler of its body's "modified" signal.  ``ListBox(walker)`` / ``listbox.body = walker`` is a
+              connect of the box to the walker and a disconnect from the body it had before.  Every history of
+              length 3 / 4 [thorough: 3..5] over {hand walker w to box b (the one it has, another one, one it
+              had earlier, one another box uses), build another box on w, give a plain list (empty / two
+              widgets) as the body, connect / disconnect the application's own handler on w} x 2 box slots x 3
+              walkers of kinds {SimpleListWalker, SimpleFocusListWalker, a ListWalker subclass of the
+              application, each empty (false) or not, a walker without a "modified" signal}; after every step
+              every walker sends "modified" (emit_signal, its own _modified(), a change through its public
+              interface) and the calls - boxes, a sentinel handler, the application's handler - are compared
+              with the model; at the end everything is dropped and every walker has to die.
+              ``bodym``: the same with Hypothesis, <= 20 steps, 1-3 box slots, 1-4 + generated walkers.
+
 Oracle (per emit "frame", nested emits are frames of their own):
   S = model list of the slot when the emit starts; a connection is *touched* if it is removed
   (disconnect or death of a weak argument) at any time while the frame is active, *added* if it is
@@ -54,6 +67,10 @@ Oracle (per emit "frame", nested emits are frames of their own):
   Nothing is asserted about touched / added connections (the statement is silent): when an untouched
   connection has the same signature (callback + arguments) as a touched or added one, that signature is
   left out of the once/in-order comparison as well (calls cannot be attributed).
+body / bodym: per emit of walker w the calls are exactly the model's connections of w, in connection order, once
+  each (a change of the walker through its list interface may emit several times: the sentinel handler, connected
+  by the harness with connect_signal, counts the emits k >= 1 and the calls must be k repetitions).  A box
+  whose body is handed to it again stays connected once; its place in the order is then not judged.
 connect: accepted if the name is in the latest list registered for the sender's class, NameError otherwise.
 No-op disconnects are performed on the real object only (model unchanged) and judged by later emits.
 disconnect(args) is never applied when two connections of the slot carry the same callback and
@@ -98,7 +115,17 @@ RULE = (
     "name) on a slot with three connections x every line of urwid/signals.py the operation executes "
     "(line events of sys.settrace, counted per operation on the tree under test) x which of 4 weak "
     "arguments loses its last reference (+ gc.collect()) at that line x API x 3 sender kinds, followed by "
-    "emits, a further connect and disconnects; machine: Hypothesis op lists <= 25 ops over 2 "
+    "emits, a further connect and disconnects; body: every history of exactly 3 steps x 4 sets of walker kinds "
+    "plus every history of exactly 4 steps with the sets in turn [thorough: 3 and 4 x 4 sets, 5 in turn] over the "
+    "19 steps {listbox_b.body = walker_w (a box is built on it when the slot is empty), build another ListBox on "
+    "walker_w in slot b, listbox_b.body = plain list of 0 / 2 widgets, connect-or-disconnect the application's "
+    "handler on walker_w} for 2 box slots x 3 walkers (SimpleListWalker / SimpleFocusListWalker / own ListWalker "
+    "subclass, each with two items or empty = false, and a walker class without signals); before the first and "
+    "after every step every walker seen so far sends 'modified' (in turn: emit_signal, _modified(), append, "
+    "delete, set_focus / grow) and the calls received by the boxes (their _invalidate), the sentinel and the "
+    "application's handler are compared with the model; finally all boxes and walkers are dropped and every "
+    "walker must be dead after gc.collect(); bodym: Hypothesis, 2-20 such steps, 1-3 box slots, 1-4 walkers of "
+    "the 7 kinds (plus the walkers boxes make from plain lists); machine: Hypothesis op lists <= 25 ops over 2 "
     "senders (11 kinds, widgets optionally built with the constructor shorthand) x 2 names (+ a third, "
     "normally unregistered one) x 3-5 parametrised handlers (argument container list / tuple / generator, "
     "list mutated after connect, legacy user_arg) with register-again, emit-by-keypress, weak-argument drops + gc.collect() at top level, inside handlers and "
@@ -106,7 +133,9 @@ RULE = (
     "unregistered names. "
     "Non-trivial: the history contains an emit on a slot to which a handler that changes the handler "
     "list (disconnect / connect / weak-argument drop) has been connected, or a weak argument is dropped "
-    "(static rule); the classes dyn:* count emits during which the list really changed / an argument died."
+    "(static rule); body: at least two steps give a box a body (a connection is replaced, shared or repeated); "
+    "the classes dyn:* count emits during which the list really changed / an argument died and, for body, "
+    "same-walker-assigned-again / walker-replaced / earlier-walker-brought-back / walker-shared-by-boxes."
 )
 ASSUMPTIONS = [
     "the harness's own model of which connection a call belongs to uses the callback identity and the "
@@ -143,6 +172,20 @@ ASSUMPTIONS = [
     "urwid/signals.py (sys.settrace line events, including the backward jumps of its loops, where CPython "
     ">= 3.12 actually runs the collector): moments inside one line are not reached; the death is produced "
     "by dropping the harness's only strong reference (+ gc.collect()), not by the cyclic collector itself",
+    "body: a ListBox is 'a handler connected' to the 'modified' signal of the walker that is its body, from the "
+    "moment it is built on it / the walker is assigned to listbox.body until another body is assigned (docstrings "
+    "of SimpleListWalker / SimpleFocusListWalker: changes 'will cause ListBox objects using this list walker to be "
+    "updated'; listbox.py is an anchor of the property); assigning the walker it already has leaves it connected "
+    "once - whether at its old place or as the last handler is not judged; a box the application lets go of "
+    "stays connected (nothing disconnects it)",
+    "body: the box's handler is observed by a ListBox subclass that overrides _invalidate() (reports, then calls "
+    "the base method); calls outside an emit of a walker are the box's own and ignored; one emit_signal(walker, "
+    "'modified') and one walker._modified() are one emit, a list operation / set_focus on a walker is at least "
+    "one emit, counted by a sentinel handler the harness connects with connect_signal when the walker appears "
+    "(the plain signal machinery is judged by the other sub-checks)",
+    "body: a walker without a 'modified' signal (an object with get_focus / get_next / get_prev / set_focus whose "
+    "class registers no signals) is a valid body (the body setter provides for it); connecting the application's "
+    "handler to it must raise NameError, emit_signal on it calls nothing",
     "the known-finding predicate for C14-disconnect-iterates-live-list reads the parameters obj / name of the "
     "interrupted disconnect / disconnect_by_key frame (diagnosis only, never the oracle)",
 ]
@@ -1409,6 +1452,396 @@ def _moment_classes(case):
 
 
 # ---------------------------------------------------------------------------------------------
+# body: the connections urwid's widgets make for themselves.  A ListBox is a handler of its body's "modified"
+# signal ("Changes made to this object ... will cause ListBox objects using this list walker to be updated"):
+# ListBox(walker) / listbox.body = walker is a connect of the box to the walker and a disconnect from the body it
+# had before.  The same history language as everywhere else - connect, disconnect, emit - spoken through the
+# widget's API, with the walker object handed over again, handed to a second box, replaced and brought back.
+
+BODY_KINDS = ("simple", "simple0", "focus", "focus0", "custom", "custom0", "silent")
+BODY_SIGNAL = "modified"
+
+
+class _AppWalker(urwid.ListWalker):
+    """a list walker of the application's own (the manual's recipe: subclass ListWalker, call _modified());
+    without items it is false like an empty SimpleListWalker"""
+
+    def __init__(self, n):
+        self.items = [urwid.Text(str(i)) for i in range(n)]
+        self.focus = 0
+
+    def __len__(self):
+        return len(self.items)
+
+    def __getitem__(self, pos):
+        return self.items[pos]
+
+    def next_position(self, pos):
+        if pos + 1 >= len(self.items):
+            raise IndexError(pos)
+        return pos + 1
+
+    def prev_position(self, pos):
+        if pos <= 0:
+            raise IndexError(pos)
+        return pos - 1
+
+    def set_focus(self, pos):
+        self.focus = pos
+        self._modified()
+
+    def grow(self):
+        self.items.append(urwid.Text("x"))
+        self._modified()
+
+
+class _SilentWalker:
+    """the walker protocol without a "modified" signal (the body setter of ListBox provides for it: "our list
+    walker has no modified signal"): every connect to it is a connect to an unregistered name"""
+
+    def get_focus(self):
+        return None, None
+
+    def get_next(self, pos):
+        return None, None
+
+    def get_prev(self, pos):
+        return None, None
+
+    def set_focus(self, pos):
+        pass
+
+
+class _CountingListBox(urwid.ListBox):
+    """observation only: the handler a ListBox connects is its bound _invalidate; the subclass reports each call"""
+
+    def __init__(self, body, report, bid):
+        self._c14_report = (report, bid)  # before ListBox.__init__, which already invalidates
+        super().__init__(body)
+
+    def _invalidate(self):
+        report, bid = self._c14_report
+        report(("lb", bid))
+        super()._invalidate()
+
+
+def _make_walker(kind):
+    n = 0 if kind.endswith("0") else 2
+    if kind.startswith("simple"):
+        return urwid.SimpleListWalker([urwid.Text(str(i)) for i in range(n)])
+    if kind.startswith("focus"):
+        return urwid.SimpleFocusListWalker([urwid.Text(str(i)) for i in range(n)])
+    if kind.startswith("custom"):
+        return _AppWalker(n)
+    return _SilentWalker()
+
+
+# ways in which a walker sends "modified": exactly one emit (emit_signal, the walker's own _modified()), or a
+# change of the walker made through its public interface (at least one emit; the sentinel handler counts them)
+BODY_HOWS = {
+    "simple": ("emit", "modified", "append", "focus", "delete"),
+    "focus": ("modified", "append", "emit", "delete", "focus"),
+    "custom": ("grow", "emit", "focus", "modified"),
+    "silent": ("emit",),
+}
+MAX_BODY_WALKERS = 12
+
+
+class BodyState:
+    def __init__(self, case):
+        self.case = case
+        self.walkers = []  # walker objects; index = identity in the model
+        self.wkinds = []
+        self.model = []  # per walker: the connections in order: ("s", w) sentinel, ("u", w) user handler, ("lb", bid)
+        self.loose = []  # per walker: connections whose place in the order the text does not fix
+        self.boxes = [None] * case.get("nboxes", 2)  # slot -> (bid, ListBox) the harness holds
+        self.body_of = {}  # bid -> walker index the box uses now
+        self.was_on = {}  # bid -> walker indices it used before (diagnosis only)
+        self.nbid = 0
+        self.cur = None  # calls of the emit in progress
+        self.step = 0
+        self.handlers = {}
+        for kind in case["kinds"]:
+            self.add_walker(_make_walker(kind), kind, [])
+
+    # ---- handlers ---------------------------------------------------------------------------
+    def report(self, who):
+        if self.cur is None:
+            if who[0] != "lb":  # a box invalidates itself for many reasons of its own; nobody else calls the others
+                raise Violation("called-outside-emit", f"handler {who} called while no walker is sending a signal")
+            return
+        self.cur.append(who)
+
+    def handler(self, who):
+        fn = self.handlers.get(who)
+        if fn is None:
+
+            def fn(*args, _who=who):
+                if args:
+                    raise Violation("arguments", f"handler {_who} of 'modified' (sent without arguments) got {args!r}")
+                self.report(_who)
+
+            self.handlers[who] = fn
+        return fn
+
+    def add_walker(self, obj, kind, conns):
+        w = len(self.walkers)
+        self.walkers.append(obj)
+        self.wkinds.append(kind)
+        self.model.append(list(conns))
+        self.loose.append(set())
+        if kind != "silent":
+            urwid.connect_signal(obj, BODY_SIGNAL, self.handler(("s", w)))
+            self.model[w].append(("s", w))
+        return w
+
+    # ---- operations ---------------------------------------------------------------------------
+    def use(self, b, w, rebuild):
+        """slot b's box gets walker w as its body (a box is built if the slot has none / ``rebuild``)"""
+        if self.boxes[b] is None or rebuild:
+            # a box the harness lets go of stays connected to its body (nothing disconnects it)
+            bid, self.nbid = self.nbid, self.nbid + 1
+            self.boxes[b] = (bid, _CountingListBox(self.walkers[w], self.report, bid))
+            _count("dyn:body:box-built-on-walker")
+            old = None
+        else:
+            bid, box = self.boxes[b]
+            old = self.body_of[bid]
+            box.body = self.walkers[w]
+            if box.body is not self.walkers[w]:
+                raise Violation("body-is-the-walker", f"listbox.body = walker {w}; listbox.body is another object")
+        self._moved(bid, old, w)
+
+    def use_list(self, b, n, rebuild):
+        """the body given as a plain list of widgets: the box wraps it in a walker of its own (listbox.body)"""
+        widgets = [urwid.Text(str(i)) for i in range(n)]
+        if self.boxes[b] is None or rebuild:
+            bid, self.nbid = self.nbid, self.nbid + 1
+            box = _CountingListBox(widgets, self.report, bid)
+            self.boxes[b] = (bid, box)
+            old = None
+        else:
+            bid, box = self.boxes[b]
+            old = self.body_of[bid]
+            box.body = widgets
+        obj = box.body
+        if any(obj is x for x in self.walkers) or obj is widgets:
+            raise Violation("body-is-the-walker", "listbox.body = [widgets...] did not make a list walker of its own")
+        _count("dyn:body:plain-list")
+        if old is not None:
+            self._leave(bid, old)
+        # the box connected first; the harness's sentinel comes after it
+        w = self.add_walker(obj, "simple", [("lb", bid)])
+        self.body_of[bid] = w
+
+    def _leave(self, bid, old):
+        self.model[old] = [c for c in self.model[old] if c != ("lb", bid)]
+        self.loose[old].discard(("lb", bid))
+        self.was_on.setdefault(bid, set()).add(old)
+
+    def _moved(self, bid, old, w):
+        if old == w:
+            # the walker it already has, handed over again: still connected, once; whether the connection keeps
+            # its place among the walker's handlers or is a new, last one the text does not say
+            self.loose[w].add(("lb", bid))
+            _count("dyn:body:same-walker-assigned-again")
+            return
+        if old is not None:
+            self._leave(bid, old)
+            _count("dyn:body:walker-replaced")
+        self.body_of[bid] = w
+        if self.wkinds[w] == "silent":
+            _count("dyn:body:walker-without-signal")
+            return
+        if any(c[0] == "lb" for c in self.model[w]):
+            _count("dyn:body:walker-shared-by-boxes")
+        if w in self.was_on.get(bid, ()):
+            _count("dyn:body:earlier-walker-brought-back")
+        self.model[w].append(("lb", bid))
+
+    def toggle(self, w):
+        """the application's own handler on the walker's signal, next to the boxes': connect / disconnect"""
+        who, obj = ("u", w), self.walkers[w]
+        if self.wkinds[w] == "silent":
+            try:
+                urwid.connect_signal(obj, BODY_SIGNAL, self.handler(who))
+            except NameError:
+                _count("dyn:unregistered-connect-rejected")
+                return
+            raise Violation("unregistered-name-rejected", "connect(walker without signals, 'modified') did not raise")
+        if who in self.model[w]:
+            urwid.disconnect_signal(obj, BODY_SIGNAL, self.handler(who))
+            self.model[w].remove(who)
+        else:
+            urwid.connect_signal(obj, BODY_SIGNAL, self.handler(who))
+            self.model[w].append(who)
+
+    # ---- emits and their oracle -------------------------------------------------------------
+    def send(self, w, how):
+        obj = self.walkers[w]
+        self.cur = calls = []
+        try:
+            if how == "emit":
+                urwid.emit_signal(obj, BODY_SIGNAL)
+            elif how == "modified":
+                obj._modified()  # what ListWalker subclasses are told to call
+            elif how == "grow" or (type(obj) is _AppWalker and not len(obj)):
+                obj.grow()
+            elif type(obj) is _AppWalker:
+                obj.set_focus(len(obj) - 1)
+            elif how == "append" or not len(obj):
+                obj.append(urwid.Text("+"))
+            elif how == "delete":
+                del obj[0]
+            else:
+                obj.set_focus(len(obj) - 1)
+        finally:
+            self.cur = None
+        return calls
+
+    def judge(self):
+        """every walker the history has seen sends its signal: the boxes using it, the sentinel and the
+        application's handler are called once each per emit, in connection order; nothing else is called"""
+        self.step += 1
+        for w in range(len(self.walkers)):
+            hows = BODY_HOWS[self.wkinds[w].rstrip("0")]
+            how = hows[(self.step + w) % len(hows)]
+            calls = self.send(w, how)
+            want = self.model[w]
+            exact = how in ("emit", "modified")
+            k = 1 if exact or not want else sum(1 for c in calls if c == ("s", w))
+            _count(f"dyn:body:emit-by:{how}")
+            if calls == want * k and k >= 1:
+                continue
+            where = (
+                f"walker {w} ({self.wkinds[w]}) sent 'modified' ({how}): calls {calls}; connected, in order "
+                f"{want} (boxes using it: {sorted(b for b, x in self.body_of.items() if x == w)}"
+                + (f", emits counted by the sentinel: {k})" if not exact else ")")
+            )
+            for c in calls:
+                if c not in want:
+                    gone = c[0] == "lb" and w in self.was_on.get(c[1], ())
+                    raise Violation("disconnected-not-called" if gone else "unconnected-not-called",
+                                    f"{c} was called, " + ("its box uses another walker now" if gone else "it is not connected")
+                                    + "; " + where)
+            if k < 1:
+                raise Violation("throughout-once-in-order:not-called", "a change of the walker sent no signal; " + where)
+            for c in want:
+                n = calls.count(c)
+                if n != k:
+                    raise Violation(
+                        "throughout-once-in-order:" + ("called-more-than-once" if n > k else "not-called"), where
+                    )
+            fixed = [c for c in want if c not in self.loose[w]]
+            if [c for c in calls if c not in self.loose[w]] != fixed * k:
+                raise Violation("throughout-once-in-order:order", where)
+            # only the place of a connection made by handing the same walker over again differs: not judged
+
+
+def _body_op(state, op):
+    kind = op[0]
+    nw = min(len(state.walkers), MAX_BODY_WALKERS)
+    if kind in ("set", "new"):
+        state.use(op[1] % len(state.boxes), op[2] % nw, kind == "new")
+    elif kind in ("list", "newlist"):
+        if len(state.walkers) >= MAX_BODY_WALKERS:
+            return
+        state.use_list(op[1] % len(state.boxes), op[2], kind == "newlist")
+    elif kind == "tog":
+        state.toggle(op[1] % nw)
+    else:
+        raise AssertionError(op)
+
+
+def check_body(case):
+    state = BodyState(case)
+    try:
+        state.judge()
+        for op in case["ops"]:
+            _body_op(state, op)
+            state.judge()
+        refs = [(w, state.wkinds[w], weakref.ref(obj)) for w, obj in enumerate(state.walkers)]
+    finally:
+        # let go of everything: boxes and walkers refer to each other (box -> body, walker -> handler -> box)
+        state.walkers, state.boxes, state.handlers = [], [], {}
+    del state
+    gc.collect()
+    alive = [(w, kind) for w, kind, ref in refs if ref() is not None]
+    if alive:
+        raise Violation(
+            "sender-not-kept-alive",
+            f"walkers {alive} are still alive after the harness dropped every walker and ListBox and gc.collect() ran",
+        )
+
+
+BODY_KIND_SETS = [
+    ["simple", "focus0", "custom"],
+    ["simple0", "focus", "silent"],
+    ["focus", "custom0", "simple0"],
+    ["custom", "silent", "simple"],
+]
+# two box slots x three walkers: hand a walker to a box (built on it if the slot is empty), build another box on
+# it, give a plain list (empty / two widgets) as the body, connect / disconnect the application's own handler
+BODY_ALPHABET = (
+    [["set", b, w] for b in range(2) for w in range(3)]
+    + [["new", b, w] for b in range(2) for w in range(3)]
+    + [["list", b, n] for b in range(2) for n in (0, 2)]
+    + [["tog", w] for w in range(3)]
+)
+
+
+def _body_histories(length):
+    if length == 0:
+        yield []
+        return
+    for head in _body_histories(length - 1):
+        for op in BODY_ALPHABET:
+            yield [*head, op]
+
+
+def body_cases(lengths_all, lengths_rot):
+    """every history of the given lengths over the alphabet: x every set of walker kinds / with the sets taken
+    in turn"""
+    for length in lengths_all:
+        for kinds in BODY_KIND_SETS:
+            for ops in _body_histories(length):
+                yield {"kinds": kinds, "ops": ops}
+    i = 0
+    for length in lengths_rot:
+        for ops in _body_histories(length):
+            yield {"kinds": BODY_KIND_SETS[i % len(BODY_KIND_SETS)], "ops": ops}
+            i += 1
+
+
+def _body_nontrivial(case):
+    """a box is given a walker after it (or another box) has had one: a connection is replaced, shared or repeated"""
+    return sum(1 for o in case["ops"] if o[0] != "tog") >= 2
+
+
+def _body_classes(case):
+    out = {f"body:walker:{k}" for k in case["kinds"]}
+    out.update(f"body:op:{o[0]}" for o in case["ops"])
+    out.add(f"body:len{min(len(case['ops']), 6)}{'+' if len(case['ops']) > 6 else ''}")
+    return sorted(out)
+
+
+_body_op_st = st.one_of(
+    st.tuples(st.just("set"), st.integers(0, 2), st.integers(0, 11)),
+    st.tuples(st.just("set"), st.integers(0, 1), st.integers(0, 1)),
+    st.tuples(st.just("new"), st.integers(0, 2), st.integers(0, 11)),
+    st.tuples(st.sampled_from(["list", "newlist"]), st.integers(0, 2), st.integers(0, 2)),
+    st.tuples(st.just("tog"), st.integers(0, 11)),
+).map(list)
+_body_case = st.fixed_dictionaries(
+    {
+        "kinds": st.lists(st.sampled_from(BODY_KINDS), min_size=1, max_size=4),
+        "nboxes": st.integers(1, 3),
+        "ops": st.lists(_body_op_st, min_size=2, max_size=20),
+    }
+)
+
+
+# ---------------------------------------------------------------------------------------------
 # machine: Hypothesis op lists
 
 _bit = st.integers(0, 1)
@@ -1517,7 +1950,18 @@ def check_machine(case):
         gc.unfreeze()
 
 
-SUBS = {"hist": check_hist, "args": check_args, "reg": check_reg, "moment": check_moment, "machine": check_machine}
+def check_bodym(case):
+    if _CTX is None:
+        return check_body(case)
+    gc.freeze()  # as in check_machine: the case's gc.collect() looks at the case's objects only
+    try:
+        return check_body(case)
+    finally:
+        gc.unfreeze()
+
+
+SUBS = {"hist": check_hist, "args": check_args, "reg": check_reg, "moment": check_moment, "machine": check_machine,
+        "body": check_body, "bodym": check_bodym}
 
 
 def shard(ctx):
@@ -1536,6 +1980,14 @@ def shard(ctx):
                   exhaustive_name="registration spellings x registering again")
         if ctx.failure is not None:
             return
+        if ctx.tier == "quick":
+            ctx.sweep("body", body_cases([3], [4]), nontrivial=_body_nontrivial, classify=_body_classes,
+                      exhaustive_name="ListBox body histories ==3 x 4 walker kind sets, ==4 kind sets in turn")
+        else:
+            ctx.sweep("body", body_cases([3, 4], [5]), nontrivial=_body_nontrivial, classify=_body_classes,
+                      exhaustive_name="ListBox body histories 3..4 x 4 walker kind sets, ==5 kind sets in turn")
+        if ctx.failure is not None:
+            return
         ctx.sweep("moment", moment_cases(), classify=_moment_classes,
                   exhaustive_name="one operation x every line of signals.py it executes x dying weak argument")
         if ctx.failure is not None:
@@ -1548,6 +2000,10 @@ def shard(ctx):
             name = "histories <=5 on 2x2x3, ==6 on 1x1x3, x behaviours"
         ctx.sweep("hist", hist_cases(ctx, parts), nontrivial=_hist_nontrivial, classify=_hist_classes,
                   exhaustive_name=name, stride=False)
+        if ctx.failure is not None:
+            return
+        # the two Hypothesis campaigns come last: their cases unfreeze the collector's permanent generation
+        ctx.given("bodym", _body_case, ctx.scale(150, 3000), nontrivial=_body_nontrivial, classify=_body_classes)
         if ctx.failure is not None:
             return
         ctx.given("machine", _machine_case, ctx.scale(1000, 20000), nontrivial=_machine_nontrivial,
